@@ -580,7 +580,7 @@ func loadObjectFromStdin(
 		}
 	}
 
-	if err = scope.AddAlias(tableName, view.FileInfo.Path); err != nil {
+	if err = scope.AddTemporaryTableAlias(tableName, view.FileInfo.Path); err != nil {
 		return nil, err
 	}
 
